@@ -31,6 +31,10 @@ ENGINES = {
         "dir": "engines/clib", "bin": "vclib", "env": {"RUSTFLAGS": ""},
         "configs": {"asm": [], "intrinsics": ["--features", "intrinsics"], "portable_only": ["--features", "portable_only"]},
     },
+    "kernels": {
+        "dir": "engines/kernels", "bin": "vkern",
+        "configs": {"default": []},
+    },
     "b3sum": {
         "dir": "engines/b3sum", "bin": "vb3",
         "configs": {"default": []},
@@ -93,6 +97,8 @@ PLANS = {
     "C02": {"level": "model_checking", "runs": simple("core", "asm-default")},
     "C03": {"level": "model_checking", "runs": simple("core", "asm-default")},
     "C04": {"level": "exploration", "runs": c04_runs, "post": c04_post},
+    "C05": {"level": "exploration", "runs": simple("kernels", "default")},
+    "C07": {"level": "exploration", "runs": simple("kernels", "default")},
     "C06": {"level": "model_checking", "runs": c06_runs},
     "C09": {"level": "exploration", "runs": simple("core", "asm-default")},
     "C10": {"level": "model_checking", "runs": simple("core", "asm-default")},
